@@ -14,7 +14,9 @@ RULE = ("Program = [EQU defs] ORG o / [label defs] / <directive> / ZZN NOP / [de
         "uniform in 0..65535; EQU ORG SETDP NAM END (with and without operand) and INCLUDE of an empty file as no-byte "
         "directives. Oracle: image = exactly the expected bytes + the sentinel NOP; reserved size (sentinel address - "
         "directive address) = byte count; unrepresentable values rejected. Enumerated: every delimiter x a string "
-        "catalogue, single values on the boundary grid in every spelling, RMB grid. Non-trivial = list length >= 2 or "
+        "catalogue, single values on the boundary grid in every spelling, RMB grid; pairs of statements naming one "
+        "label below $100 (7 data forms beside 14 data / instruction forms, both orders, label at $10 / $80 / $F0), "
+        "each data directive judged on its own bytes. Non-trivial = list length >= 2 or "
         "a negative / symbol element; string with a blank, punctuation or length >= 11; n >= 256; distinct by case hash.")
 ASSUMPTIONS = [
     "the expected bytes come from the directive model in this file (two's complement at the directive's width, high byte first)",
@@ -129,6 +131,51 @@ def enumerated(tier, seed):
               dict(dir="NAM", operand="MYPROG"), dict(dir="END", operand=""), dict(dir="END", operand="ZZN"),
               dict(dir="INCLUDE", operand="empty.asm")):
         yield c
+    yield from pair_cases()
+
+
+# two statements naming one label that lies below $100: each data directive must emit the label at its own width,
+# whatever width the other statement uses it at
+_PAIR_DATA = {"FCB ZZL": lambda a: bytes([a]), "FDB ZZL": lambda a: bytes([0, a]), "FCB ZZL,1": lambda a: bytes([a, 1]),
+              "FDB ZZL,1": lambda a: bytes([0, a, 0, 1]), "FCB 1,ZZL+1": lambda a: bytes([1, a + 1]), "FDB ZZL-1": lambda a: bytes([0, a - 1]),
+              "FDB 2,ZZL": lambda a: bytes([0, 2, 0, a])}
+_PAIR_OTHER = ["JMP ZZL", "JMP >ZZL", "LDX #ZZL", "LDA #ZZL", "LDA <ZZL", "LDA ZZL,X", "LDA [ZZL]"]
+
+
+def pair_cases():
+    stmts = list(_PAIR_DATA) + _PAIR_OTHER
+    for org in (0x0010, 0x0080, 0x00F0):
+        for a in _PAIR_DATA:
+            for b in stmts:
+                yield dict(dir="PAIR", org=org, a=a, b=b, first=True)
+                yield dict(dir="PAIR", org=org, a=a, b=b, first=False)
+
+
+def execute_pair(case):
+    first, second = (case["a"], case["b"]) if case["first"] else (case["b"], case["a"])
+    lines = [A.line("", "ORG", "$%04X" % case["org"]), A.line("ZZL", "NOP")] + [A.line("", *t.split(" ", 1)) for t in (first, second)] \
+        + [A.line("ZZN", "NOP")]
+    labels = ["dir:PAIR"]
+    out = driver.assemble(lines)
+    if out.kind in ("CRASH", "HANG"):
+        return skip("crash/hang: judged by C13 ({} {})".format(out.exc, out.frame), labels=labels)
+    if out.kind == "DIAG":
+        return viol("{!r} / {!r} with the label at ${:04X} rejected: {}".format(first, second, case["org"], out.message),
+                    fid="C05:PAIR:rejected", labels=labels)
+    if len(out.rows) != 5 or any(r[0] is None for r in out.rows[1:]):
+        return viol("listing unreadable", fid="C05:PAIR:listing", labels=labels)
+    for idx, text in ((2, first), (3, second)):
+        if text in _PAIR_DATA:
+            want = _PAIR_DATA[text](case["org"])
+            lo, hi = out.rows[idx][0] - case["org"], out.rows[idx + 1][0] - case["org"]
+            got = out.image[lo:hi]
+            if got != want:
+                return viol("{!r} beside {!r}, label at ${:04X}: emitted {} expected {}".format(
+                    text, second if idx == 2 else first, case["org"], got.hex(), want.hex()), fid="C05:PAIR:bytes", labels=labels)
+    if out.image[-1:] != b"\x12" or len(out.image) != out.rows[4][0] - case["org"] + 1:
+        return viol("image of {} bytes does not end at the listed address of the last statement".format(len(out.image)),
+                    fid="C05:PAIR:layout", labels=labels)
+    return ok(labels=labels, nontrivial=True)
 
 
 def searches(tier):
@@ -207,6 +254,8 @@ def build(case):
 
 
 def render(case):
+    if case["dir"] == "PAIR":
+        return case
     lines, expected, _ = build(case)
     show = dict(case)
     if "elems" in show and len(show["elems"]) > 8:
@@ -217,6 +266,8 @@ def render(case):
 
 def execute(case):
     d = case["dir"]
+    if d == "PAIR":
+        return execute_pair(case)
     lines, expected, row = build(case)
     labels = ["dir:" + d]
     nontrivial = False
